@@ -55,6 +55,17 @@ pub fn roots_of(b: &Built, outs: &Option<Vec<u16>>) -> Vec<Node> {
 }
 
 fn run<const N: usize>(case: &Case, cx: &mut Cx) -> CheckResult {
+    // many-variable programs: the 8 generated coordinates are extended
+    let widened;
+    let case = if case.dag.nvars as usize > 8 {
+        let mut c = case.clone();
+        c.points = gens::widen_points(&case.points, case.dag.nvars as usize);
+        widened = c;
+        cx.ev.count("programs_with_more_than_32_variables_or_8");
+        &widened
+    } else {
+        case
+    };
     let b = build_dag(&case.dag);
     let roots = roots_of(&b, &case.outs);
     // N < 3 may refuse loudly
@@ -338,8 +349,17 @@ impl Prop for P {
         let max = tier.pick(60, 300);
         let mut p = gens::DagParams::all(max);
         p.min_vars = 0;
+        // mostly ordinary programs; a few wide ones (257-320 values live at
+        // once: slot indices beyond a byte at every budget) and a few with
+        // 33-120 variables
+        let mut pw = gens::DagParams::all(max);
+        pw.consts = gens::fl_moderate();
         (
-            gens::dag(p),
+            prop_oneof![
+                tier.pick(400, 100) => gens::dag(p),
+                1 => gens::dag_wide(pw.clone(), 1..=6, 257..=320, false),
+                1 => gens::dag_wide(pw, 1..=1, 33..=120, true),
+            ],
             prop_oneof![
                 2 => Just(None),
                 3 => vec(any::<u16>(), 1..=8).prop_map(Some),
